@@ -34,7 +34,7 @@ def shards(tier):
 
 
 def required_classes(tier):
-    out = ["hash:related-messages", "g1:iso:kernel", "g2:iso:kernel", "g1:u:maps-to-kernel", "g2:u:maps-to-kernel", "g1:u:exceptional", "g1:u:zero", "g1:u:special", "g1:u:random", "g2:u:zero", "g2:u:special", "g2:u:zero-part", "g2:u:random",
+    out = ["g2:u:candidate-residual-has-zero-coordinate", "hash:related-messages", "g1:iso:kernel", "g2:iso:kernel", "g1:u:maps-to-kernel", "g2:u:maps-to-kernel", "g1:u:exceptional", "g1:u:zero", "g1:u:special", "g1:u:random", "g2:u:zero", "g2:u:special", "g2:u:zero-part", "g2:u:random",
            "g1:hash", "g2:hash", "hash:dst=255", "hash:dst=256", "hash:dst=0", "g1:iso:rescaled", "g2:iso:rescaled",
            "g1:gx1:square", "g1:gx1:nonsquare", "g2:gx1:square", "g2:gx1:nonsquare"]
     out += ["g2:sqrt:root%d" % k for k in range(4)] + ["g2:sqrt:eta%d" % k for k in range(4)]
@@ -120,6 +120,72 @@ def u_pool_g2(rng, n_random):
         if r is not None:
             out.append(("special", r))
     out += [("random", F2.rand(rng)) for _ in range(n_random)]
+    return out
+
+
+def residual_zero_coordinate_inputs(rng, n_polys):
+    """Field elements t in Fp2 at which a residual of a square-root CANDIDATE TEST has exactly one zero coordinate.
+
+    Any constant-time square root of the ratio g(x1) = u/v, u = N^3 + A N D^2 + B D^3, v = D^3 (RFC 9380 F.2.1 / eprint 2019/403
+    section 4) forms a candidate gamma with gamma^2 v / u an 8th root of unity, multiplies it by roots of unity (resp. by
+    sqrt(Z^3 / omega) for x2) and tests candidate^2 v - u == 0.  For a WRONG candidate the tested residual is (omega - 1) u(t), resp.
+    Z^3 (omega - 1) t^6 u(t), omega an 8th root of unity != 1: a polynomial in t.  A test that inspects coordinates instead of the
+    value (one coordinate, `any`/`all` slips) misfires exactly where one coordinate of that polynomial vanishes - a set of density
+    2/p that random inputs never meet, but which is found by fixing Im(t) = b, interpolating coordinate_j(c W(a + b i)) as a
+    polynomial in a over Fp (degree <= 18) and taking its roots."""
+    from ..model.gf import poly_roots_fp
+    F, S = F2, M.G2_SSWU
+    p = F.p
+    A, B, Z = S.A, S.B, S.Z
+
+    def u_of(t):
+        zt2 = F.mul(Z, F.mul(t, t))
+        tmp = F.add(zt2, F.mul(zt2, zt2))
+        D = F.neg(F.mul(A, tmp))
+        N = F.mul(B, F.add(tmp, F.one))
+        v = F.mul(D, F.mul(D, D))
+        return F.add(F.add(F.mul(N, F.mul(N, N)), F.mul(A, F.mul(N, F.mul(D, D)))), F.mul(B, v))
+    # the eight 8th roots of unity
+    w8 = None
+    while w8 is None:
+        c_ = F.pow(F.rand(rng), (p * p - 1) // 8)
+        if F.pow(c_, 4) != F.one:
+            w8 = c_
+    roots8 = [F.pow(w8, k) for k in range(1, 8)]
+    Z3 = F.mul(Z, F.mul(Z, Z))
+    # first test (roots of unity times gamma): omega any 8th root; second test (x2 candidates): omega = ratio of two admissible
+    # gamma^2 v / u values = a 4th root of unity
+    consts = [(F.sub(w, F.one), 0) for w in roots8] + [(F.mul(Z3, F.sub(w, F.one)), 6) for w in roots8 if F.pow(w, 4) == F.one] * 2
+    out = []
+    for _ in range(n_polys):
+        c, k = consts[rng.randrange(len(consts))]
+        j = rng.randrange(2)
+        b = rng.randrange(1, p)
+        deg = 12 + k
+        xs = list(range(1, deg + 3))
+        ys = []
+        for a in xs:
+            t = (a, b)
+            ys.append(F.mul(c, F.mul(F.pow(t, k), u_of(t)))[j])
+        # Newton interpolation -> coefficients (low degree first)
+        coef = list(ys)
+        for lvl in range(1, len(xs)):
+            for i_ in range(len(xs) - 1, lvl - 1, -1):
+                coef[i_] = (coef[i_] - coef[i_ - 1]) * pow(xs[i_] - xs[i_ - lvl], -1, p) % p
+        poly = [0]
+        for i_ in range(len(xs) - 1, -1, -1):
+            # poly = poly * (x - xs[i_]) + coef[i_]
+            nxt = [0] * (len(poly) + 1)
+            for d_, cf in enumerate(poly):
+                nxt[d_ + 1] = (nxt[d_ + 1] + cf) % p
+                nxt[d_] = (nxt[d_] - cf * xs[i_]) % p
+            nxt[0] = (nxt[0] + coef[i_]) % p
+            poly = nxt
+        for a in poly_roots_fp(poly, p, rng):
+            t = (a % p, b)
+            val = F.mul(c, F.mul(F.pow(t, k), u_of(t)))
+            if val[j] == 0 and val[1 - j] != 0:
+                out.append((t, "omega-1" if k == 0 else "Z^3(omega-1)t^6", j))
     return out
 
 
@@ -237,6 +303,15 @@ def run(rec):
         if not ku:
             rec.waive("g%d:u:maps-to-kernel" % g, "no field element maps onto a rational kernel point")
 
+    # ------------------------------------------------------------ t at which a candidate-test residual has one zero coordinate
+    rz = residual_zero_coordinate_inputs(rng, 16 if quick else 160)
+    rec.event("g2:residual-zero-coordinate:inputs-found", len(rz))
+    for t, kind, j in rz:
+        rec.case("g2:u:candidate-residual-has-zero-coordinate", ("rz", t), sample={"fn": "map_to_curve_G2", "u": t, "class": "coordinate %d of %s u(t) vanishes" % (j, kind)})
+        call(swu.optimized_swu_G2, CG.mk_el(cls[2], t))
+        call(h2c.map_to_curve_G2, CG.mk_el(cls[2], t))
+        call(h2c.map_to_curve_G2, CG.mk_el(cls[2], F2.neg(t)))
+    rec.case("g2:u:candidate-residual-has-zero-coordinate", None, nontrivial=False)
     # ------------------------------------------------------------ full hashes
     msgs = msg_pool(rng, big=not quick)
     dsts = [b"", b"\x00", b"QUUX-V01-CS02-with-BLS12381G2_XMD:SHA-256_SSWU_RO_", b"BLS_SIG_BLS12381G2_XMD:SHA-256_SSWU_RO_POP_", rng.randbytes(255), rng.randbytes(254)]
